@@ -1,3 +1,4 @@
+import Swat4.Lemmas.FactsExtra15
 import Swat4.Gen.Facts
 import Swat4.Model.UseCases.Discovery
 import Swat4.Lemmas.Prog
